@@ -198,4 +198,82 @@ Section Atomic.
       + cbn. now apply HN.
       + intros t. destruct (HT t) as [(rem' & _ & _ & P')|(it' & _ & _ & rem' & _ & _ & _ & _ & P' & _)]; eexists; apply P'.
   Qed.
+  (* ---- the hypothesis [complete] is satisfiable for every program with finitely
+     many threads: running the threads one after the other never blocks ---- *)
+  Notation run_from := (fold_left step').
+  Definition all_free (s : state) : Prop := forall l, holder s l = None.
+
+  Lemma step_act s t l a k : conts s t = IAct l a :: k ->
+    step' s t = {| conts := upd (conts s) t k; holder := holder s; obj := upd (obj s) l (act a (obj s l)) |}.
+  Proof. intros C. unfold step. now rewrite C. Qed.
+  Lemma step_lock s t l k : conts s t = ILock l :: k -> holder s l = None ->
+    step' s t = {| conts := upd (conts s) t k; holder := upd (holder s) l (Some t); obj := obj s |}.
+  Proof. intros C H. unfold step. now rewrite C, H. Qed.
+  Lemma step_unlock s t l k : conts s t = IUnlock l :: k ->
+    step' s t = {| conts := upd (conts s) t k; holder := upd (holder s) l None; obj := obj s |}.
+  Proof. intros C. unfold step. now rewrite C. Qed.
+
+  Lemma alone_acts l t acts : forall k s,
+    conts s t = map (IAct l) acts ++ k ->
+    conts (run_from (repeat t (length acts)) s) t = k /\
+    holder (run_from (repeat t (length acts)) s) = holder s /\
+    (forall u, u <> t -> conts (run_from (repeat t (length acts)) s) u = conts s u).
+  Proof.
+    induction acts as [|a r IH]; intros k s C; cbn [length repeat fold_left]; [auto|].
+    cbn [map app] in C. rewrite (step_act s t l a _ C).
+    match goal with |- context [run_from _ ?s1] => destruct (IH k s1) as (A & B & D) end.
+    { cbn [conts]. now rewrite upd_same. }
+    split; [exact A|]. split; [rewrite B; reflexivity|].
+    intros u Hu. rewrite (D u Hu). cbn [conts]. now apply upd_other.
+  Qed.
+
+  Lemma alone_item it t k s :
+    conts s t = compile_item Act Item sec_of it ++ k -> all_free s ->
+    conts (run_from (repeat t (length (compile_item Act Item sec_of it))) s) t = k /\
+    all_free (run_from (repeat t (length (compile_item Act Item sec_of it))) s) /\
+    (forall u, u <> t -> conts (run_from (repeat t (length (compile_item Act Item sec_of it))) s) u = conts s u).
+  Proof.
+    intros C F. unfold compile_item in *. cbn [length app] in *. rewrite app_length, map_length. cbn [length].
+    rewrite <- app_assoc in C. cbn [app] in C.
+    cbn [repeat fold_left]. rewrite (step_lock s t _ _ C (F _)).
+    rewrite repeat_app, fold_left_app. cbn [repeat fold_left].
+    match goal with |- context [run_from (repeat t (length (snd (sec_of it)))) ?s1] =>
+      destruct (alone_acts (fst (sec_of it)) t (snd (sec_of it)) (IUnlock (fst (sec_of it)) :: k) s1) as (A & B & D) end.
+    { cbn [conts]. now rewrite upd_same. }
+    rewrite (step_unlock _ t _ _ A). cbn [conts holder]. rewrite upd_same. split; [reflexivity|]. split.
+    - intros l. cbn [holder]. rewrite B. cbn [holder]. unfold upd. destruct (Nat.eqb l (fst (sec_of it))); [reflexivity|apply F].
+    - intros u Hu. rewrite upd_other by exact Hu. rewrite (D u Hu). cbn [conts]. now apply upd_other.
+  Qed.
+
+  Lemma alone_thread t its : forall s,
+    conts s t = flat' its -> all_free s ->
+    conts (run_from (repeat t (length (flat' its))) s) t = [] /\
+    all_free (run_from (repeat t (length (flat' its))) s) /\
+    (forall u, u <> t -> conts (run_from (repeat t (length (flat' its))) s) u = conts s u).
+  Proof.
+    induction its as [|it r IH]; intros s C F; cbn [flat flat_map length repeat fold_left]; [auto|].
+    cbn [flat flat_map] in C. rewrite app_length, repeat_app, fold_left_app.
+    destruct (alone_item it t _ s C F) as (A & B & D).
+    destruct (IH _ A B) as (A' & B' & D'). split; [exact A'|]. split; [exact B'|].
+    intros u Hu. etransitivity; [exact (D' u Hu)|exact (D u Hu)].
+  Qed.
+
+  Theorem complete_exists n : (forall t, n <= t -> prog t = []) ->
+    exists sched, complete St Act (run St Act act code o0 sched).
+  Proof.
+    intros Hn.
+    assert (G : forall m, m <= n -> exists sched,
+              let s := run St Act act code o0 sched in
+              all_free s /\ (forall t, t < m -> conts s t = []) /\ (forall t, m <= t -> conts s t = code t)).
+    { induction m as [|m IH]; intros Hm.
+      - exists []. cbn. repeat split; auto. intros t Ht. lia.
+      - destruct IH as (sched & F & Done & Rest); [lia|].
+        exists (sched ++ repeat m (length (flat' (prog m)))). unfold run in *. rewrite fold_left_app.
+        destruct (alone_thread m (prog m) _ (Rest m (le_n m)) F) as (A & B & D).
+        split; [exact B|]. split.
+        + intros t Ht. destruct (Nat.eq_dec t m) as [->|Hne]; [exact A|]. rewrite (D t Hne). apply Done. lia.
+        + intros t Ht. rewrite (D t) by lia. apply Rest. lia. }
+    destruct (G n (le_n n)) as (sched & _ & Done & Rest). exists sched. intros t.
+    destruct (Nat.lt_ge_cases t n) as [L|L]; [now apply Done|]. rewrite (Rest t L). unfold code. now rewrite (Hn t L).
+  Qed.
 End Atomic.
